@@ -511,3 +511,104 @@ def decide(p, interned, a, op, b):
             return False
         return None
     raise ValueError(op)
+
+
+def calls_outside(p, name_suffix, window="process_send"):
+    """Opaque calls to *name_suffix that are not made inside an inlined callee whose name starts with `window`
+    (the handler's own work, including private helpers it delegates to, as opposed to a nested send handler's)."""
+    out = []
+    depth = 0
+    stack = []
+    for e in p.effects:
+        if e[0] == "enter":
+            w = e[1].split("::")[-1].startswith(window)
+            stack.append(w)
+            depth += 1 if w else 0
+        elif e[0] == "exit":
+            if stack:
+                depth -= 1 if stack.pop() else 0
+        elif e[0] == "call" and depth == 0 and (e[1].endswith(name_suffix)):
+            out.append(e)
+    return out
+
+
+# ----------------------------------------------------------------- who-may-write (helper-transitive)
+def owner_name(g):
+    """Function a body is attributed to: closures count as their enclosing function."""
+    return (g.get("parent") or g["path"]).split("::")[-1] if g.get("kind") == "Closure" else g["path"].split("::")[-1]
+
+
+def direct_writers(F, field, adt=None):
+    """Names of functions that assign to / mutably borrow <adt>.<field>, or build the struct (reported as the builder's name)."""
+    adt = adt or GC_ADT
+    out = {}
+    for g in F.fns.values():
+        caps = [c.get("s", "") for c in g.get("captures", [])] if g.get("kind") == "Closure" else []
+        for b in g["blocks"]:
+            for st in b["stmts"]:
+                if st["k"] != "assign":
+                    continue
+                places = [st["lhs"]]
+                if st["rv"]["k"] == "ref" and st["rv"].get("mut"):
+                    places.append(st["rv"]["place"])
+                if st["rv"]["k"] == "agg" and st["rv"].get("adt") == adt:
+                    out.setdefault(owner_name(g), g)
+                for pl in places:
+                    hit = any(isinstance(el, dict) and el.get("n") == field and el.get("a") == adt for el in pl["p"])
+                    if not hit and caps:
+                        for el in pl["p"]:
+                            if isinstance(el, dict) and el.get("a") == "{closure}" and el.get("f", 1 << 30) < len(caps) and caps[el["f"]].endswith("." + field):
+                                hit = True
+                    if hit:
+                        out.setdefault(owner_name(g), g)
+    return out
+
+
+_callers = {}
+
+
+def callers_map(F):
+    """callee function name -> set of caller names (both restricted to local functions; closures attributed to their parents)."""
+    if F.hash not in _callers:
+        m = {}
+        for g in F.fns.values():
+            for b in g["blocks"]:
+                t = b["term"]
+                if t["k"] == "call" and "fn" in t["func"].get("const", {}):
+                    fi = t["func"]["const"]["fn"]
+                    cp = (fi.get("res") or {}).get("path", fi["path"])
+                    if cp in F.fns:
+                        m.setdefault(cp, set()).add(g["path"] if g.get("kind") != "Closure" else g.get("parent", g["path"]))
+        _callers[F.hash] = m
+    return _callers[F.hash]
+
+
+def offending_writers(F, field, allowed, adt=None):
+    """Writers of the field outside `allowed`, where a private helper that is only ever called (transitively) from allowed
+    functions is attributed to them: extracting a block of an allowed writer into a private function changes nothing."""
+    direct = direct_writers(F, field, adt)
+    cm = callers_map(F)
+    bad = set()
+    seen = set()
+    work = [(n, g) for n, g in direct.items() if n not in allowed]
+    while work:
+        n, g = work.pop()
+        if n in seen:
+            continue
+        seen.add(n)
+        path = g["path"] if g.get("kind") != "Closure" else g.get("parent", g["path"])
+        gg = F.fns.get(path, g)
+        cs = cm.get(path, set())
+        if gg.get("pub") or not cs:
+            bad.add(n)
+            continue
+        for c in cs:
+            cn = c.split("::")[-1]
+            if cn in allowed or cn in seen:
+                continue
+            cg = F.fns.get(c)
+            if cg is None:
+                bad.add(n)
+            else:
+                work.append((cn, cg))
+    return bad, set(direct)
